@@ -391,4 +391,13 @@ def report(seed, tier, conf, variants, done, errors, wall, repo, write_ev=True):
 
 
 if __name__ == "__main__":
-    main()
+    try:
+        main()
+    except SystemExit:
+        raise
+    except BaseException as e:  # noqa: BLE001 - an uncaught exception is a harness error (exit 2), never a verdict
+        import traceback
+
+        traceback.print_exc()
+        print(f"HARNESS-ERROR: {type(e).__name__}: {e}")
+        sys.exit(2)
